@@ -342,7 +342,7 @@ class SpecEval:
         fn = e.func.id if isinstance(e.func, ast.Name) else None
         if fn == 'old':
             sub = SpecEval(self.ex, self.env, self.old_env, use_old=True)
-            return sub.ev(e.args[0])
+            return sub.seqify(sub.ev(e.args[0]))
         if fn == 'implies':
             return VBool(z3.Implies(self.boolean(e.args[0]), self.boolean(e.args[1])))
         if fn == 'iff':
@@ -806,6 +806,18 @@ class VExec(Exec):
                 if I.is_generator(fi):
                     fr.locals['__yield__'] = []
                     fr.locals['__yield_sym__'] = None
+                if fi.kind == 'contextmanager':
+                    # the with-body runs at the yield: it returns normally or raises (every listed outcome is explored)
+                    outs = self.ghost.get('__body_outcomes__', ['AnyException'])
+
+                    def on_yield(v, outs=outs):
+                        d = self.choose(1 + len(outs), 'with-body')
+                        if d > 0:
+                            self.note(f'with-body:raises({outs[d - 1]})')
+                            raise PyRaise(VExc(outs[d - 1], []))
+                        self.note('with-body:normal')
+                        return NONE
+                    fr.locals['__on_yield__'] = on_yield
                 I.exec_block(fi.node.body, fr)
                 outcome = ('return', NONE)
                 if I.is_generator(fi):
